@@ -212,13 +212,16 @@ def coq_stage(prop):
         m = re.search(r'File "([^"]+)", line (\d+)[^\n]*\n(Error:.*?)(?:\n\n|\Z)', out, flags=re.S)
         where = ("%s:%s %s" % (m.group(1), m.group(2), " ".join(m.group(3).split())[:300])) if m else out.strip()[-300:]
         notes = []
-        for gf in ("LeavesUtils.v", "LeavesLine.v", "LeavesSB.v", "LeavesRSN.v", "LeavesRSW.v", "LeavesQV.v"):
+        for gf in ("LeavesUtils.v", "LeavesLine.v", "LeavesSB.v", "LeavesRSN.v", "LeavesRSW.v", "LeavesQV.v",
+                   "FnsBv.v", "FnsRsn2.v", "FnsRsw2.v", "FnsRss.v", "FnsRsq.v", "FnsDa.v", "FnsQwt.v"):
             try:
                 first = open(os.path.join(COQ, "theories", "Gen", gf)).readline()
             except OSError:
                 first = ""
             if first.startswith("(* gen_leaves failed:"):
                 notes.append("translator T3 could not read the source for %s: %s" % (gf, first.strip()[22:-2].strip()))
+            if first.startswith("(* gen_fns failed:"):
+                notes.append("translator T5 could not read the source for %s: %s" % (gf, first.strip()[19:-2].strip()))
         res.update(ok=False, broken=["proof obligation no longer checks: " + where] + notes +
                    ["tie to the source lost: " + x for x in res["stale_relevant"]])
         return res
